@@ -16,3 +16,57 @@ REG.fn(F, "luby", prop="C02", requires=["i >= 1"],
        lemmas=["pow2"],
        loops={1: LoopSpec(invariants=["i >= 1", "k >= 1", "i >= pow2(k - 1)", "i <= old(i)"],
                           decreases="(i, i - pow2(k - 1))")})
+
+# ------------------------------------------------------------------ trail bookkeeping closures of solve_sat
+REG.consts["UNDEF"] = ("int", 2)
+CAP = {"trail": "list[int]", "trail_lim": "list[int]", "vals": "list[int]", "phase": "list[bool]",
+       "in_heap": "list[bool]", "activity": "list[real]", "var_heap": "opaque", "prop_head": "int",
+       "levels": "list[int]", "reasons": "list[int]", "propagations": "int"}
+
+# trail / level consistency: assigned variables are exactly the (distinct) trail entries, level marks are
+# ordered positions in the trail
+REG.define("trail_inv", [], [
+    "len(phase) == len(vals)", "len(in_heap) == len(vals)", "len(activity) == len(vals)",
+    "len(levels) == len(vals)", "len(reasons) == len(vals)",
+    "forall(i, implies(0 <= i < len(trail), 1 <= trail[i] < len(vals) and vals[trail[i]] != 2), trig=trail[i])",
+    "forall(i, j, implies(0 <= i < j and j < len(trail), trail[i] != trail[j]), trig=((trail[i], trail[j]),))",
+    "forall(v, implies(0 <= v < len(vals) and vals[v] != 2, exists(i, 0 <= i < len(trail) and trail[i] == v)), trig=vals[v])",
+    "forall(i, implies(0 <= i < len(trail_lim), 0 <= trail_lim[i] <= len(trail)), trig=trail_lim[i])",
+    "forall(i, j, implies(0 <= i < j and j < len(trail_lim), trail_lim[i] <= trail_lim[j]), trig=((trail_lim[i], trail_lim[j]),))",
+])
+
+F_ = "solvor/sat.py"
+REG.fn(F_, "solve_sat.unassign_to", prop="C01,C02", captures=CAP, types={"level": "int"},
+       requires=["level >= 0", "trail_inv()", "0 <= prop_head <= len(trail)"],
+       ensures=[
+           "trail_inv()",
+           # backtracking to `level` keeps levels 0..level: the trail is cut at the START of level+1 ...
+           "implies(old(len(trail_lim)) > level, len(trail_lim) == level and len(trail) == old(trail_lim)[level])",
+           "implies(old(len(trail_lim)) <= level, len(trail_lim) == old(len(trail_lim)) and len(trail) == old(len(trail)))",
+           # ... and what stays on the trail keeps its position and its value (level-0 facts survive every restart)
+           "forall(i, implies(0 <= i < len(trail), trail[i] == old(trail)[i] and vals[trail[i]] == old(vals)[trail[i]]), trig=trail[i])",
+           "forall(i, implies(0 <= i < len(trail_lim), trail_lim[i] == old(trail_lim)[i]), trig=trail_lim[i])",
+           "prop_head <= len(trail)", "prop_head <= old(prop_head)",
+           "len(vals) == old(len(vals))",
+       ],
+       modifies=["trail", "trail_lim", "vals", "phase", "in_heap", "var_heap", "prop_head"],
+       loops={1: LoopSpec(invariants=[
+           "len(phase) == len(vals)", "len(in_heap) == len(vals)", "len(activity) == len(vals)", "len(vals) == old(len(vals))",
+           "len(levels) == len(vals)", "len(reasons) == len(vals)",
+           "target <= len(trail) <= old(len(trail))", "0 <= target",
+           "forall(i, implies(0 <= i < len(trail), trail[i] == old(trail)[i]), trig=trail[i])",
+           "forall(i, implies(0 <= i < len(trail), vals[trail[i]] == old(vals)[trail[i]]), trig=trail[i])",
+           "forall(v, implies(0 <= v < len(vals) and vals[v] != 2, exists(i, 0 <= i < len(trail) and trail[i] == v)), trig=vals[v])",
+           "len(trail_lim) == level",
+           "forall(i, implies(0 <= i < len(trail_lim), trail_lim[i] == old(trail_lim)[i]), trig=trail_lim[i])",
+           "target == old(trail_lim)[level]",
+       ], decreases="len(trail)")})
+
+REG.fn(F_, "solve_sat.assign", prop="C01,C02", captures=CAP, types={"var": "int", "val": "bool", "reason_idx": "int"},
+       requires=["trail_inv()", "1 <= var < len(vals)", "vals[var] == 2"],
+       ensures=["trail_inv()", "len(trail) == old(len(trail)) + 1", "trail[len(trail) - 1] == var",
+                "vals[var] == (1 if val else 0)", "levels[var] == len(trail_lim)", "reasons[var] == reason_idx",
+                "forall(i, implies(0 <= i < old(len(trail)), trail[i] == old(trail)[i]), trig=trail[i])",
+                "forall(v, implies(0 <= v < len(vals) and v != var, vals[v] == old(vals)[v]), trig=vals[v])",
+                "len(vals) == old(len(vals))"],
+       modifies=["trail", "vals", "levels", "reasons", "propagations"])
